@@ -80,8 +80,12 @@ func (c *fctx) instr(fr *frame, in ssa.Instruction, reach string, st *state) {
 		fr.vals[x] = c.convert(fr, x, reach, st)
 	case *ssa.ChangeType:
 		v := c.operand(fr, x.X)
-		if c.S.SortOf(x.Type()) != c.S.SortOf(x.X.Type()) {
-			c.errorf("%s: ChangeType between different sorts %s -> %s", fr.fn, x.X.Type(), x.Type())
+		if from, to := c.S.SortOf(x.X.Type()), c.S.SortOf(x.Type()); from != to {
+			// conversion between two named types with identical underlying struct type: an uninterpreted, total function
+			name := q("conv." + typeKey(x.X.Type()) + "." + typeKey(x.Type()))
+			c.S.declareOnce(fmt.Sprintf("(declare-fun %s (%s) %s)", name, from, to))
+			fr.vals[x] = val{t: fmt.Sprintf("(%s %s)", name, c.termOf(v, "conversion"))}
+			break
 		}
 		fr.vals[x] = v
 	case *ssa.ChangeInterface:
@@ -581,6 +585,8 @@ func (c *fctx) convert(fr *frame, x *ssa.Convert, reach string, st *state) val {
 		c.setRegion(st, key, srt, fmt.Sprintf("(store %s %s %s)", c.region(st, key, srt), r, arr))
 		if eb != nil && eb.Kind() == types.Uint8 {
 			c.assume(fmt.Sprintf("(forall ((i!c Int)) (! (=> (and (<= 0 i!c) (< i!c (len %s))) (= (select %s i!c) (at %s i!c))) :pattern ((select %s i!c))))", v.t, arr, v.t, arr))
+			// the bytes of []byte(s), read back as a string, are s (true by construction; saves an extensionality argument)
+			c.assume(fmt.Sprintf("(= (bytesToStr %s 0 (len %s)) %s)", arr, v.t, v.t))
 			return val{t: fmt.Sprintf("(mkslice %s 0 (len %s) (len %s))", r, v.t, v.t)}
 		}
 		// []rune(s): abstract rune decoding
